@@ -114,6 +114,8 @@ def gen(rng, thorough):
     lines = []
     for i in range(40 if thorough else 6):
         lines += gen_stalled(rng)
+    # stop() immediately after creation, before the writer thread may have started (missed seed C28-4)
+    lines += ['quick %d %d' % (60 if thorough else 25, n) for n in (1, 3, 10)]
     nseg = 500 if thorough else 120
     for i in range(nseg):
         lines += gen_segment(rng, allow_empty=(i % 25 == 7))
@@ -244,6 +246,12 @@ class Oracle:
             return (None, None)
         if w[0] == 'thr':
             return self.thr(w, out)
+        if w[0] == 'quick':
+            self.live = False
+            return (len(w) == 3 and out == 'quick ok=%s of %s' % (w[1], w[1]), None)
+        if w[0] == 'djoin':
+            self.live = False
+            return (out == 'dtor=prompt join=0', None)
         if w[0] == 'new':
             if not (len(w) == 4 and self.start(w)):
                 return (out == 'bad-op', None)
